@@ -51,6 +51,11 @@ def evaluate(case, out):
         out.lib_exception("build", e)
         return
     cids = list(contests)
+    # the bookkeeping make_phantoms leaves on the contests: cards = records listing the contest (phantoms included),
+    # cvrs = real CVRs listing it; sample sizes are bounded by the former
+    for cid, con in contests.items():
+        con.cards = sum(1 for c in cvrs if c.has_contest(cid))
+        con.cvrs = sum(1 for c in cvrs if c.has_contest(cid) and not c.phantom)
     sizes = sa.apply_plan(case, case["plan"], cvrs, contests, min_size=0)
     nums = [c.sample_num for c in cvrs]
     order = sorted(range(len(cvrs)), key=lambda i: nums[i])
